@@ -15,7 +15,8 @@ CONSTANTS MaxLines,        \* initial files have at most this many lines
           LineAlphabet,    \* set of lines (sequences of atoms) initial files are built from
           DefectC18,       \* TRUE: model the bounded backward scan of findNonCommentLineContainingString (pre-fix code)
           DefectC19,       \* TRUE: disable removes the whole line even when other entries share it (pre-fix code)
-          AtomicWrite      \* TRUE: write protocol is tmp+rename; FALSE: truncate-then-write (pre-fix code)
+          AtomicWrite,     \* TRUE: write protocol is tmp+rename; FALSE: truncate-then-write (pre-fix code)
+          TmpTrunc         \* TRUE: the temporary is opened with truncation; FALSE: a stale temporary's tail survives (seeded defect)
 
 Atoms == {"OWN", "SP", "TAB", "HASH", "FOR", "FOR2", "FSN", "PFX", "SFX", "TXT", "MEN", "CR"}
 (* OWN  = the library's own path            FOR/FOR2 = paths of other libraries                  *)
